@@ -44,36 +44,59 @@ def ns_of(d):
     return refmodel.to_ns(d)
 
 
-def one(level, y, doy, hmsm, us_extra):
-    h, mi, s, ms = hmsm
-    date = dt.date(y, 1, 1) + dt.timedelta(days=doy - 1)  # day-of-year 1 = 1 January
-    inst = dt.datetime(date.year, date.month, date.day, h, mi, s, ms * 1000)
-    ms_of_day = ((h * 60 + mi) * 60 + s) * 1000 + ms
-    us_of_day = ms_of_day * 1000 + us_extra
+FIELDS = ("line", "attitude", "first_point", "scene_center", "creation", "summary")
+
+
+def one(level, y, doy, hmsm, us_extra, other=None, pre=()):
+    """other = (field, (y, doy, hmsm)): that one time-bearing field holds another instant than the rest (each field must
+    decode to its own instant; only the attitude points, which store no year, take theirs from the first point)"""
+
+    def parts(yy, dd, hm):
+        h, mi, sec, ms = hm
+        date = dt.date(yy, 1, 1) + dt.timedelta(days=dd - 1)  # day-of-year 1 = 1 January
+        inst = dt.datetime(date.year, date.month, date.day, h, mi, sec, ms * 1000)
+        return {"y": yy, "doy": dd, "ms": ms, "date": date, "inst": inst, "ms_of_day": ((h * 60 + mi) * 60 + sec) * 1000 + ms}
+
+    base = parts(y, doy, hmsm)
+    P = {f: base for f in FIELDS}
+    if other is not None:
+        P = {**P, other[0]: parts(*other[1])}
     spec = treecheck.spec_from_case({"spec": {"level": level, "images": [["HH", None, 2, 1]], "leader": {"n_att": 2}}})
-    stamp = struct.pack(">III", y, doy, ms_of_day)
-    spec = synth.with_dev(spec, "img0", "line", "sensor_acquisition_date", stamp, None)
+    q = P["line"]
+    spec = synth.with_dev(spec, "img0", "line", "sensor_acquisition_date", struct.pack(">III", q["y"], q["doy"], q["ms_of_day"]), None)
     if level == "1.1":
-        spec = synth.with_dev(spec, "img0", "line", "sensor_acquisition_date_microseconds", struct.pack(">Q", us_of_day), None)
+        spec = synth.with_dev(spec, "img0", "line", "sensor_acquisition_date_microseconds", struct.pack(">Q", q["ms_of_day"] * 1000 + us_extra), None)
+    q = P["attitude"]
     for k in range(2):
-        spec = synth.with_dev(spec, "led", f"attitude_point[{k}]", "time.day_of_year", doy)
-        spec = synth.with_dev(spec, "led", f"attitude_point[{k}]", "time.millisecond_of_day", ms_of_day)
+        spec = synth.with_dev(spec, "led", f"attitude_point[{k}]", "time.day_of_year", q["doy"])
+        spec = synth.with_dev(spec, "led", f"attitude_point[{k}]", "time.millisecond_of_day", q["ms_of_day"])
     # the platform-position record carries the year for the attitude points: first point = 1 Jan + offset
-    spec = synth.with_dev(spec, "led", "platform_position", "datetime_of_first_point.date", f"{date.year:04d}  {date.month:02d}  {date.day:02d}".encode())
-    spec = synth.with_dev(spec, "led", "platform_position", "datetime_of_first_point.seconds_of_day", f"{ms_of_day / 1000:.3f}")
-    spec = synth.with_dev(spec, "led", "dataset_summary", "scene_center_time", inst.strftime("%Y%m%d%H%M%S") + f"{ms:03d}")
-    spec = synth.with_dev(spec, "vol", "volume_descriptor", "logical_volume_creation_datetime", inst.strftime("%Y%m%d%H%M%S") + f"{ms // 10:02d}")
+    q = P["first_point"]
+    spec = synth.with_dev(spec, "led", "platform_position", "datetime_of_first_point.date", f"{q['date'].year:04d}  {q['date'].month:02d}  {q['date'].day:02d}".encode())
+    spec = synth.with_dev(spec, "led", "platform_position", "datetime_of_first_point.seconds_of_day", f"{q['ms_of_day'] / 1000:.3f}")
+    q = P["scene_center"]
+    spec = synth.with_dev(spec, "led", "dataset_summary", "scene_center_time", q["inst"].strftime("%Y%m%d%H%M%S") + f"{q['ms']:03d}")
+    q = P["creation"]
+    spec = synth.with_dev(spec, "vol", "volume_descriptor", "logical_volume_creation_datetime", q["inst"].strftime("%Y%m%d%H%M%S") + f"{q['ms'] // 10:02d}")
+    q = P["summary"]
     lines = synth.summary_lines(spec)
-    txt = inst.strftime("%Y%m%d %H:%M:%S") + f".{ms:03d}"
+    txt = q["inst"].strftime("%Y%m%d %H:%M:%S") + f".{q['ms']:03d}"
     lines = [f'Img_SceneCenterDateTime="{txt}"' if l.startswith("Img_SceneCenterDateTime") else l for l in lines]
-    lines = [f'Lbi_ObservationDate="{inst.strftime("%Y%m%d")}"' if l.startswith("Lbi_ObservationDate") else l for l in lines]
+    lines = [f'Lbi_ObservationDate="{q["inst"].strftime("%Y%m%d")}"' if l.startswith("Lbi_ObservationDate") else l for l in lines]
     spec = dict(spec)
     spec["summary"] = {**spec["summary"], "lines": lines}
-    out = treecheck.check_spec(spec)
+    if pre:
+        env.import_lib()
+        env.wipe_cache()
+    out = treecheck.check_spec(spec, pre=pre)
     fails = list(out["failures"])
+    inst, ms = base["inst"], base["ms"]
     if "actual" in out:
         act = out["actual"]
-        want_ms = ns_of(inst)
+
+        def want(field, floor_cs=False):
+            q = P[field]
+            return ns_of(q["inst"]) - ((q["ms"] % 10) * 10**6 if floor_cs else 0)
 
         def leaf_vals(key):
             return [v[1] for v in act.get(key, {}).get("values", [])]
@@ -81,42 +104,46 @@ def one(level, y, doy, hmsm, us_extra):
         def instant_of(text):
             return ns_of(dt.datetime.fromisoformat(text))
 
+        # attitude points store (day, ms): their year is the first point's
+        qa, qf = P["attitude"], P["first_point"]
+        att = ns_of(dt.datetime(qf["date"].year, 1, 1) + dt.timedelta(days=qa["doy"] - 1, milliseconds=qa["ms_of_day"]))
         checks = [
-            ("/imagery/HH:sensor_acquisition_date", leaf_vals("/imagery/HH:sensor_acquisition_date"), [want_ms] * 2),
-            ("/metadata/attitude/attitude:time", leaf_vals("/metadata/attitude/attitude:time"), [want_ms] * 2),
-            ("/metadata/attitude/rates:time", leaf_vals("/metadata/attitude/rates:time"), [want_ms] * 2),
+            ("/imagery/HH:sensor_acquisition_date", leaf_vals("/imagery/HH:sensor_acquisition_date"), [want("line")] * 2),
+            ("/metadata/attitude/attitude:time", leaf_vals("/metadata/attitude/attitude:time"), [att] * 2),
+            ("/metadata/attitude/rates:time", leaf_vals("/metadata/attitude/rates:time"), [att] * 2),
         ]
         if level == "1.1":
-            day0 = ns_of(dt.datetime(date.year, date.month, date.day))
-            checks.append(("/imagery/HH:sensor_acquisition_date_microseconds", leaf_vals("/imagery/HH:sensor_acquisition_date_microseconds"), [day0 + us_of_day * 1000] * 2))
-        for key, attr, want in (
-            ("/metadata/platform_position@datetime_of_first_point", None, want_ms),
-            ("/metadata/dataset_summary@scene_center_time", None, want_ms),
-            ("/@creation_datetime", None, want_ms - (ms % 10) * 10**6),
-            ("/summary/image_information@SceneCenterDateTime", None, want_ms),
+            q = P["line"]
+            day0 = ns_of(dt.datetime(q["date"].year, q["date"].month, q["date"].day))
+            checks.append(("/imagery/HH:sensor_acquisition_date_microseconds", leaf_vals("/imagery/HH:sensor_acquisition_date_microseconds"), [day0 + (q["ms_of_day"] * 1000 + us_extra) * 1000] * 2))
+        for key, w in (
+            ("/metadata/platform_position@datetime_of_first_point", want("first_point")),
+            ("/metadata/dataset_summary@scene_center_time", want("scene_center")),
+            ("/@creation_datetime", want("creation", floor_cs=True)),
+            ("/summary/image_information@SceneCenterDateTime", want("summary")),
         ):
             v = act.get(key)
             try:
                 got = [instant_of(v[1])] if v else ["missing"]
             except Exception:
                 got = [f"unparsable {v}"]
-            checks.append((key, got, [want]))
+            checks.append((key, got, [w]))
         v = act.get("/summary/label_information@ObservationDate")
-        if not v or v[1] != date.isoformat():
-            fails.append({"sig": {"leaf": "/summary/label_information@ObservationDate"}, "detail": f"ObservationDate {v} != {date.isoformat()}"})
-        for key, got, want in checks:
-            if got != want:
+        if not v or v[1] != P["summary"]["date"].isoformat():
+            fails.append({"sig": {"leaf": "/summary/label_information@ObservationDate"}, "detail": f"ObservationDate {v} != {P['summary']['date'].isoformat()}"})
+        for key, got, w in checks:
+            if got != w:
                 sig = {"leaf": "/metadata/attitude/*:time[*]" if "/attitude/" in key else key}
-                if got and want and isinstance(got[0], int):
-                    sig["delta_ns"] = got[0] - want[0]
-                fails.append({"sig": sig, "detail": f"{key}: decoded {got[:1]} != instant {want[:1]} ({inst.isoformat()}, day {doy} of {y})"})
+                if got and w and isinstance(got[0], int):
+                    sig["delta_ns"] = got[0] - w[0]
+                fails.append({"sig": sig, "detail": f"{key}: decoded {got[:1]} != instant {w[:1]} ({inst.isoformat()}, day {doy} of {y}{'; ' + other[0] + ' holds ' + P[other[0]]['inst'].isoformat() if other else ''})"})
     # dedupe by signature
     seen, uniq = set(), []
     for f in fails:
         k = core.jkey(f["sig"])
         if k not in seen:
             seen.add(k)
-            f["detail"] = f"{level} {y}-{doy:03d} {hmsm}: {f['detail']}"
+            f["detail"] = f"{level} {y}-{doy:03d} {hmsm}{' through the index cache' if pre else ''}: {f['detail']}"
             f["case"] = {"days": [[y, doy]]}
             uniq.append(f)
     return uniq
@@ -164,6 +191,40 @@ def sweep(case):
                 if k not in seen:
                     seen.add(k)
                     f["case"] = {"fn": "sweep", "day": [y, doy]}
+                    fails.append(f)
+    return {"ok": not fails, "failures": fails, "outcome": "ok" if not fails else "mismatch", "nontrivial": True, "n": n}
+
+
+def independent(case):
+    """one time-bearing field holds an instant of another year than all the others (both directions across new year)"""
+    fails, n, seen = [], 0, set()
+    a, b = (2021, 1, (0, 0, 5, 120)), (2020, 366, (23, 59, 50, 500))
+    for base, oth in ((a, b), (b, a)):
+        for field in FIELDS:
+            for level in ("1.5", "1.1"):
+                n += 1
+                for f in one(level, *base, 7, other=(field, oth)):
+                    k = core.jkey(f["sig"])
+                    if k not in seen:
+                        seen.add(k)
+                        f["case"] = {"fn": "independent"}
+                        fails.append(f)
+    return {"ok": not fails, "failures": fails, "outcome": "ok" if not fails else "mismatch", "nontrivial": True, "n": n}
+
+
+def cached(case):
+    """the same instants read back through an index cache written by the previous open"""
+    fails, n, seen = [], 0, set()
+    y, doy = case["day"]
+    for i, msod in enumerate((1, 999, 86399, 43_200_789, 86_399_999)):
+        hmsm = (msod // 3_600_000, msod // 60000 % 60, msod // 1000 % 60, msod % 1000)
+        for level in ("1.5", "1.1"):
+            n += 1
+            for f in one(level, y, doy, hmsm, US_EXTRA[i % 3], pre=[{"create_cache": True}]):
+                k = core.jkey(f["sig"])
+                if k not in seen:
+                    seen.add(k)
+                    f["case"] = {"fn": "cached", "day": [y, doy]}
                     fails.append(f)
     return {"ok": not fails, "failures": fails, "outcome": "ok" if not fails else "mismatch", "nontrivial": True, "n": n}
 
@@ -236,7 +297,7 @@ def run(res, tier, seed):
         "instants = (every day [thorough] | days 1,2,59,60,61,365,366 [quick]) of every year 2014..2049 x times 00:00:00.000,"
         " 12:34:56.789, 23:59:59.999 (+0/1/999 us for the us-of-day stamp) x levels 1.5 and 1.1; each instant is written into all"
         " time fields of one product at once; every time leaf is compared with the instant (and the whole tree with the"
-        " reference model); plus 16 times of day at every order of magnitude of the ms/us counters (1 ms .. 86 399 998 ms) on 4 days; plus hours 0-3 of eight daylight-saving switch-over days under four local time zones; plus 12 decimal-second texts of the" " platform-position first point up to 86399.9999996 s on 4 dates (1 us tolerance) and on 96 dates written blank-padded ('2016   1  16'); plus images of 1025/1100/2049 lines (all per-line leaves compared) so that bulk code paths above the default"
+        " reference model); plus 16 times of day at every order of magnitude of the ms/us counters (1 ms .. 86 399 998 ms) on 4 days; plus each time-bearing field alone holding an instant of the neighbouring year; plus 5 instants on 4 days read back through the index cache; plus hours 0-3 of eight daylight-saving switch-over days under four local time zones; plus 12 decimal-second texts of the" " platform-position first point up to 86399.9999996 s on 4 dates (1 us tolerance) and on 96 dates written blank-padded ('2016   1  16'); plus images of 1025/1100/2049 lines (all per-line leaves compared) so that bulk code paths above the default"
         " 1024-line chunk are exercised. A case is a batch of 6 days; all distinct, all non-trivial."
     )
     res.assumptions = ["day-of-year 1 = 1 January as the property states; leap seconds are not modelled"]
@@ -246,6 +307,12 @@ def run(res, tier, seed):
         n += out["n"]
     for idx, case, out in core.pool_map(__name__, "sweep", [{"day": list(d)} for d in SWEEP_DAYS], chunksize=1):
         res.record({**case, "fn": "sweep"}, out, order=2 * 10**6 + idx)
+        n += out["n"]
+    for idx, case, out in core.pool_map(__name__, "independent", [{}], chunksize=1):
+        res.record({"fn": "independent"}, out, order=5 * 10**6 + idx)
+        n += out["n"]
+    for idx, case, out in core.pool_map(__name__, "cached", [{"day": list(d)} for d in SWEEP_DAYS], chunksize=1):
+        res.record({**case, "fn": "cached"}, out, order=6 * 10**6 + idx)
         n += out["n"]
     for idx, case, out in core.pool_map(__name__, "tz_sweep", [{"tz": tz, "level": lv} for tz in env.TZ_RULES for lv in ("1.5", "1.1")], chunksize=1):
         res.record({**case, "fn": "tz_sweep"}, out, order=4 * 10**6 + idx)
